@@ -25,6 +25,12 @@ from vf.cli import WorkerResult
 from vf.oracles import harm
 from vf.props.c12 import METHODS, listing
 
+
+def _gt(a, b):
+    """a > b that is also True when a is NaN (a silent NaN must never pass a tolerance test)."""
+    return ~(np.asarray(a) <= np.asarray(b))
+
+
 LEVEL = "exploration"
 RULE = (
     "every (method, degree, size) table entry x every (l,m), l<=degree (quick: l<=cap for the "
@@ -94,7 +100,7 @@ def _grid_case(arg):
     if not np.all(np.isfinite(mom)):
         res.violation(f"{name}:non-finite-moment", f"{name}: non-finite moments", case)
     elif err[worst] > TOL_MOMENT:
-        bad = np.nonzero(err > TOL_MOMENT)[0]
+        bad = np.nonzero(_gt(err, TOL_MOMENT))[0]
         first_l = int(np.floor(np.sqrt(bad[0])))
         lm = harm.horton_lm(lmax)
         res.violation(
